@@ -69,6 +69,7 @@ class PState:
         self.nul_at = None     # Lin position of the last NUL written (terminator), if it is the last byte
         self.depth = Lin(0, {'depth': 1})
         self.callee_tail = False   # a printer callee returned: its text (NUL-terminated) sits at offset, unaccounted
+        self.clobber = None        # position where a sprintf inside the escaping loop may have left its terminator
 
     def copy(self):
         s = PState()
@@ -81,12 +82,14 @@ class PState:
         s.nul_at = self.nul_at
         s.depth = self.depth
         s.callee_tail = self.callee_tail
+        s.clobber = self.clobber
         return s
 
     def sig(self):
         return (tuple(sorted(self.atoms.items())), tuple(sorted((k, v.key()) for k, v in self.env.items())),
                 tuple(sorted((k, v.key()) for k, v in self.ptr.items())), self.grant[0]['id'] if self.grant else None,
-                self.extent.key(), self.acct.key(), self.nul_at.key() if self.nul_at else None, self.depth.key(), self.callee_tail)
+                self.extent.key(), self.acct.key(), self.nul_at.key() if self.nul_at else None, self.depth.key(), self.callee_tail,
+                self.clobber.key() if self.clobber is not None else None)
 
 
 class SymExec:
@@ -159,6 +162,8 @@ class SymExec:
                     'nogrant:' + what)
             return
         end = pos.add(nbytes)
+        if st.clobber is not None and pos.leq(st.clobber) and st.clobber.add(Lin(1)).leq(end):
+            st.clobber = None      # the stray terminator is overwritten
         m = lmax(st.extent, end)
         if m is None:
             raise AnalysisBroken('OUT2: %s: cannot order extents %r and %r' % (self.fn.where(node), st.extent, end))
@@ -182,6 +187,10 @@ class SymExec:
         body = st.extent
         if st.nul_at is not None and st.nul_at.add(Lin(1)).eq(st.extent):
             body = st.nul_at
+        if why == 'return' and st.clobber is not None:
+            self.ob('OUT3', node, 'no terminator written inside the escaping loop survives in the text', False,
+                    'sprintf may leave a NUL at byte %s of the grant and nothing overwrites it afterwards (a string ending in a '
+                    'control character would lose what was stored there before the loop)' % st.clobber, 'clobber')
         if why == 'return':
             ok = st.acct.leq(body) and (st.acct.eq(st.extent) or (st.nul_at is not None))
             self.ob('OUT3', node, 'text left for the caller\'s update_offset is zero-terminated (grant of line %d)' % g['loc'][0], ok,
@@ -196,6 +205,7 @@ class SymExec:
         st.extent = Lin(0)
         st.acct = Lin(0)
         st.nul_at = None
+        st.clobber = None
 
     # ---- statements -----------------------------------------------------------------------------------------------------
     def ptr_pos(self, e, st):
@@ -458,6 +468,10 @@ class SymExec:
         st = st.copy()
         n = st.env[ol[0]['d']]
         self.write(st, stmt, st.ptr[qd], n, False, 'escaping loop: output_length byte(s) (count == emit by TAB5b)')
+        # a \\uXXXX escape is written with sprintf, whose terminator lands on the byte after the escape: when the escape
+        # is the last character that is the byte following the loop's output
+        if any(x.get('k') == 'call' and callee_name(x) == 'sprintf' for x in walk(stmt['body'])):
+            st.clobber = st.ptr[qd].add(n)
         st.ptr.pop(qd, None)
         c = strip_casts(stmt['c'])
         exits = []
